@@ -195,6 +195,7 @@ class Oracle(object):
     if hb:
       raise Violation("handout_independent", "obj=%s,after=%s" % (hb[0], kind),
                       "object handed out earlier changed after op %s" % kind)
+    self.cross_handle(m, op, h)
     if kind == "fit" and h is not None:
       self.after_fit(m, op, ev, live, h)
     elif kind in ("query",) and ev.get("outcome") != "skip" and "state_after" in live:
@@ -233,6 +234,37 @@ class Oracle(object):
         k = _first_diff(gp, live["gp_before"])
         raise Violation("args_untouched", "op=%s,param=%s" % (kind, k),
                         "hyper-parameter %s of %s changed during %s" % (k, h.name, kind))
+
+  def cross_handle(self, m, op, h):
+    """An operation on one estimator must not change any *other* live
+    estimator: neither its fitted attributes nor what it answers (state shared
+    through a common array, a class attribute or a module-level cache would)."""
+    if not hasattr(self, "snap"):
+      self.snap = {}
+    touched = set(x for x in (op.get("h"), op.get("h2")) if x is not None)
+    if op["op"] == "mutate_handout":
+      touched = set(m.handles)          # the mutated matrix belongs to some handle
+    for hid, hh in m.handles.items():
+      if hh.est is None:
+        continue
+      cur = self._snapshot(m, hh)
+      if hid not in touched and hid in self.snap and self.snap[hid] != cur:
+        a = _first_diff(self.snap[hid], cur)
+        raise Violation("cross_handle", "op=%s,attr=%s" % (op["op"], a),
+                        "%s (handle %s) changed (%s) although the operation %s was performed on %s"
+                        % (hh.name, hid, a, op["op"], "handle %s" % op.get("h") if "h" in op else "no handle"))
+      self.snap[hid] = cur
+    m.cov["cross_handle_checks"] += max(0, len(m.handles) - len(touched))
+
+  def _snapshot(self, m, hh):
+    st = dict(state_digest(hh.est))
+    if hh.defined and hh.last_fit is not None and not (hh.store is not None and hh.store.armed):
+      D = m.dataset(hh.last_fit["op"]["data"])
+      rs = np_stream(hh.hid, "cross-probe")
+      pairs = D.S[rs.randint(0, D.N, size=(3, 2))]
+      r = _safe(hh.est.pair_distance, pairs)
+      st["<pair_distance>"] = r[0] if r[0] != "ok" else digest(r[1])
+    return st
 
   def after_fit(self, m, op, ev, live, h):
     if op.get("malformed"):
